@@ -381,7 +381,8 @@ def catalogue():
     for n in (1, 15, 16, 17, 40, 59, 60, 61, 100, 1000):
         c["srv_random_%d" % n] = (mk_srv_random(n), srv, None)
     c["srv_silent_3s"] = (f_srv_silent_3s, srv, None)
-    c["srv_truncated_handshake"] = (f_srv_truncated_handshake, srv, lambda cfg: ("dualfwd" if cfg["native_udp"] else "tcpfwd") if cfg["tcp_layer"] == "plain" else None)
+    # over quic the client never speaks TCP to the server, so there is no genuine TCP request to truncate
+    c["srv_truncated_handshake"] = (f_srv_truncated_handshake, lambda cfg: cfg["server_tcp"] and cfg["transport"] != "quic", lambda cfg: ("dualfwd" if cfg["native_udp"] else "tcpfwd") if cfg["tcp_layer"] == "plain" else None)
     c["srv_50_half_open"] = (f_srv_50_half_open, srv, None)
     c["srv_rst_after_connect"] = (f_srv_rst_after_connect, srv, None)
     for n in (1, 15, 31, 100):
@@ -453,7 +454,7 @@ def run_scenario(name, cfg, fault_names, seed, extra_spec=None):
             if udpfwd is not None:
                 udpfwd.set_upstream((T.LOOPBACK, dep.server_port))
             observed = {"faults": [], "udp_checked": cfg["udp"], "via_forwarder": tcpfwd is not None}
-            ok0, prob0, h0 = T.health(dep, udp=cfg["udp"])
+            ok0, prob0, h0 = T.health(dep, udp=cfg["udp"], when="before the fault")
             observed["canary_before"] = h0["canary"]
             if not ok0:
                 observed.update(T.tails(dep))
